@@ -192,14 +192,26 @@ Definition hstate0 (specs : list (phase * qsc * option Q * qcc)) : state qcc (op
   (h, map (fun kx => let '(k, (p, sc, hv, _)) := kx in fresh qcc (option Q) qsc d0cc h CnHandle p sc hv k)
           (combine (seq 0 (length specs)) specs)).
 
+(* the setters change the one datum; in particular (generated: Tm_setter_refreshes_Sfus = Hfus_setter_refreshes_Sfus = false)
+   the entropy of fusion derived at construction, Sfus = Hfus / Tm, is NOT recomputed *)
 Definition set_Tm (v : Q) (s : qsc) := mkSc (Some v) (q_Tb s) (q_Hfus s) (q_Sfus s) (q_S0 s).
 Definition set_Tb (v : Q) (s : qsc) := mkSc (q_Tm s) (Some v) (q_Hfus s) (q_Sfus s) (q_S0 s).
 Definition set_Hfus (v : Q) (s : qsc) := mkSc (q_Tm s) (q_Tb s) (Some v) (q_Sfus s) (q_S0 s).
 Definition set_Sfus (v : Q) (s : qsc) := mkSc (q_Tm s) (q_Tb s) (q_Hfus s) (Some v) (q_S0 s).
+Definition set_S0 (v : Q) (s : qsc) := mkSc (q_Tm s) (q_Tb s) (q_Hfus s) (q_Sfus s) (Some v).
 
-Definition hist_case lnc lnd tI tJ specs (ops : list hop) (qs : list query) (expected : list (list (pyv Q))) : bool :=
+(* what the chemical's own handles return now: Cn of a phase (the locked phase for a locked chemical), Hvap(Tb) *)
+Definition hcn_now (h : list qcc) (c : hchem) (ph : phase) : pyv Q :=
+  let ph' := match c_kind _ _ _ c with CnLocked sp => sp | _ => ph end in
+  Ok (cc_get (hget qcc d0cc h (c_cn _ _ _ c)) ph').
+Definition hhv_now (c : hchem) : pyv Q := Ok (c_hv _ _ _ c).
+
+Definition hist_case lnc lnd tI tJ specs (ops : list hop) (qs : list query) (expected : list (list (pyv Q)))
+           (cnqs : list phase) (cn_expected : list (list (pyv Q))) (hv_expected : list (pyv Q)) : bool :=
   let s := run qcc (option Q) qsc d0cc qmerge (hstate0 specs) ops in
-  list_eqb pyvs_approxb (map (fun c => map (hobserve lnc lnd tI tJ (fst s) c) qs) (snd s)) expected.
+  list_eqb pyvs_approxb (map (fun c => map (hobserve lnc lnd tI tJ (fst s) c) qs) (snd s)) expected
+  && list_eqb pyvs_approxb (map (fun c => map (hcn_now (fst s) c) cnqs) (snd s)) cn_expected
+  && pyvs_approxb (map hhv_now (snd s)) hv_expected.
 
 (* ---- property packages: mixture of package k evaluated with the functors its mixture models hold ---- *)
 Inductive pobs : Type :=
@@ -207,17 +219,73 @@ Inductive pobs : Type :=
 | PoS (k : nat) (ph : phase) (mol : list Q) (T P : option Q)
 | PoCn (k : nat) (ph : phase) (mol : list Q) (T : option Q).
 
-Definition pkg_mix (chems : list qchem) (p : pkg) : qmix :=
-  mkQMix (flat_map (fun i => match nth_error chems i with Some c => [c] | None => [] end) (p_models p)) false [] [].
+Definition pkg_mix (chems : list qchem) (p : pkg unit) : qmix :=
+  mkQMix (flat_map (fun e => match nth_error chems (fst e) with Some c => [c] | None => [] end) (p_models p)) false [] [].
 
-Definition pkg_obs lnc lnd (chems : list qchem) (s : list pkg) (o : pobs) : pyv Q :=
+Definition pkg_obs lnc lnd (chems : list qchem) (s : list (pkg unit)) (o : pobs) : pyv Q :=
   match o with
   | PoH k ph mol T P => match nth_error s k with Some p => mix_H lnc lnd (pkg_mix chems p) ph mol T P | None => Err EIndex end
   | PoS k ph mol T P => match nth_error s k with Some p => mix_S lnc lnd (pkg_mix chems p) ph mol T P | None => Err EIndex end
   | PoCn k ph mol T => match nth_error s k with Some p => mix_Cn lnc lnd (pkg_mix chems p) ph mol T | None => Err EIndex end
   end.
 
-Definition pkg_case lnc lnd (chems : list qchem) (ops : list pop) (chem_lists : list (list nat)) (obs : list pobs)
+(* the chemicals of these cases never change, so live and captured models coincide *)
+Definition pkg_case lnc lnd (chems : list qchem) (ops : list (pop unit)) (chem_lists : list (list nat)) (obs : list pobs)
            (expected : list (pyv Q)) : bool :=
-  let s := prun [] ops in
+  let s := snd (prun unit (tt, []) ops) in
   list_eqb (list_eqb Nat.eqb) (map p_chems s) chem_lists && pyvs_approxb (map (pkg_obs lnc lnd chems s) obs) expected.
+
+(* ---- packages over chemicals that CHANGE (the Rewire.v store): a model index evaluates the chemical's current
+        functors when the models are live, and the functors of the store state captured at build time otherwise ---- *)
+Definition hstate := state qcc (option Q) qsc.
+Definition hrun1 (o : hop) (s : hstate) : hstate := step qcc (option Q) qsc d0cc qmerge s o.
+
+Definition entry_state (cur : hstate) (e : nat * option hstate) : hstate :=
+  match snd e with None => cur | Some s => s end.
+Definition entry_H lnc lnd tI tJ (cur : hstate) (e : nat * option hstate) : phase -> option Q -> option Q -> pyv Q :=
+  fun ph T P => let s := entry_state cur e in
+    match nth_error (snd s) (fst e) with Some c => hobserve lnc lnd tI tJ (fst s) c (QH ph T P) | None => Err EIndex end.
+Definition entry_S lnc lnd tI tJ (cur : hstate) (e : nat * option hstate) : phase -> option Q -> option Q -> pyv Q :=
+  fun ph T P => let s := entry_state cur e in
+    match nth_error (snd s) (fst e) with Some c => hobserve lnc lnd tI tJ (fst s) c (QS ph T P) | None => Err EIndex end.
+(* Chemical.Cn through the mixture: the PhaseTHandle dispatches on the phase, a locked chemical has one model *)
+Definition entry_Cn (cur : hstate) (e : nat * option hstate) : phase -> option Q -> pyv Q :=
+  fun ph T => let s := entry_state cur e in
+    match nth_error (snd s) (fst e), T with
+    | Some c, Some _ =>
+        let ph' := match c_kind _ _ _ c with CnLocked sp => sp | _ => ph end in
+        Ok (cc_get (hget qcc d0cc (fst s) (c_cn _ _ _ c)) ph')
+    | Some _, None => Err EType
+    | None, _ => Err EIndex
+    end.
+
+Definition hp_obs lnc lnd tI tJ (s : pstate hstate) (o : pobs) : pyv Q :=
+  let E := mix_env lnc lnd in let O := QOps lnc lnd in
+  match o with
+  | PoH k ph mol T P =>
+      match nth_error (snd s) k with
+      | Some p => Mixture_H O false (IdealTPMixtureModel_call E (map (entry_H lnc lnd tI tJ (fst s)) (p_models p)))
+                            (fun _ _ _ _ => Ok None) ph (sparse_items O mol) T P
+      | None => Err EIndex end
+  | PoS k ph mol T P =>
+      match nth_error (snd s) k with
+      | Some p => Mixture_S O false (IdealEntropyModel_call E (map (entry_S lnc lnd tI tJ (fst s)) (p_models p)))
+                            (fun _ _ _ _ => Ok None) ph (sparse_items O mol) T P
+      | None => Err EIndex end
+  | PoCn k ph mol T =>
+      match nth_error (snd s) k with
+      | Some p => IdealTMixtureModel_call E (map (entry_Cn (fst s)) (p_models p)) ph (sparse_items O mol) T None
+      | None => Err EIndex end
+  end.
+
+Definition pkghist_case lnc lnd tI tJ specs (ops : list (pop hstate)) (chem_lists : list (list nat)) (obs : list pobs)
+           (expected : list (pyv Q)) : bool :=
+  let s := prun hstate (hstate0 specs, []) ops in
+  list_eqb (list_eqb Nat.eqb) (map p_chems (snd s)) chem_lists && pyvs_approxb (map (hp_obs lnc lnd tI tJ s) obs) expected.
+
+(* the property's "entropy jump at Tm = Hfus / Tm" after the melting point (or the heat of fusion) was changed through
+   the public setters: the FULL statement, refuted in ProofsQ.v *)
+Definition Sfus_follows_setters_statement : Prop :=
+  forall (hf tm sf v : Q), ~ tm == 0 -> ~ v == 0 -> sf == hf / tm ->
+    (exists x, q_Sfus (set_Tm v (mkSc (Some tm) None (Some hf) (Some sf) None)) = Some x /\ x == hf / v) /\
+    (exists x, q_Sfus (set_Hfus v (mkSc (Some tm) None (Some hf) (Some sf) None)) = Some x /\ x == v / tm).
